@@ -371,7 +371,7 @@ impl Group for Chain {
         "c14.chain"
     }
     fn rule(&self) -> &'static str {
-        "a real loopback server with Extensions::new() (CSP, referrer, server header, nonce) + generated CSP rules on /a/* , /a/b , /* (or none), server header override on/off, a handler that sets its own referrer-policy on /a/own; one connection requesting miss, hit, 404, 206, 416, 304, HEAD, 400 and a nonce page; for each response the four headers (content-security-policy, referrer-policy, server, csp-nonce) are compared with the model's Package chain for the most specific rule; oracle: nonce page body value = CSP nonce, csp-nonce never exposed; non-trivial = always (9 response kinds per case)"
+        "a real loopback server with Extensions::new() (CSP, referrer, server header, nonce) + generated CSP rules on /a/* , /a/b , /* (or none), server header override on/off, a handler that sets its own referrer-policy on /a/own; one connection requesting miss, hit, 404, 206, 416, 304, HEAD, 400 and nonce pages (twice or three times each: one uncached, one whose handler asks for caching, one where a later directive on the `!> ` line re-enables caching); for each response the four headers (content-security-policy, referrer-policy, server, csp-nonce) are compared with the model's Package chain for the most specific rule; oracle: nonce page body value = CSP nonce, csp-nonce never exposed, no nonce value is ever served twice; non-trivial = always (9 response kinds per case)"
     }
     fn parallel(&self) -> bool {
         false
@@ -436,6 +436,11 @@ impl Group for Chain {
             FatResponse::cache(r)
         }));
         ext.add_prepare_single("/n", prepare!(_r, _h, _p, _a, { FatResponse::no_cache(Response::new(Bytes::from_static(b"!> nonce\n<script nonce=\"x\">1</script><style nonce=>"))) }));
+        // a nonce page whose handler asks for caching, and one where a later directive on the `!> ` line asks for it
+        // (what `cache server:full` of kvarn-extensions does): neither may ever be served from the cache
+        ext.add_prepare_single("/nc", prepare!(_r, _h, _p, _a, { FatResponse::cache(Response::new(Bytes::from_static(b"!> nonce\n<script nonce=\"x\">1</script><style nonce=>"))) }));
+        ext.add_prepare_single("/nr", prepare!(_r, _h, _p, _a, { FatResponse::cache(Response::new(Bytes::from_static(b"!> nonce &> recache\n<script nonce=\"x\">1</script><style nonce=>"))) }));
+        ext.add_present_internal("recache", present!(data, { *data.server_cache_preference = comprash::ServerCachePreference::Full; }));
         let mut host = Host::unsecure("localhost", "/nonexistent", ext, host::Options::default());
         host.limiter.disable();
         let data = HostCollection::builder().insert(host).build();
@@ -456,7 +461,14 @@ impl Group for Chain {
             ("GET /a/own HTTP/1.1\r\nhost: localhost\r\n\r\n".into(), false, "/a/own", Some("origin")),
             ("GET /a/./b HTTP/1.1\r\nhost: localhost\r\n\r\n".into(), false, "/a/./b", None),
             ("GET /n HTTP/1.1\r\nhost: localhost\r\n\r\n".into(), false, "/n", None),
+            ("GET /n HTTP/1.1\r\nhost: localhost\r\n\r\n".into(), false, "/n", None),
+            ("GET /nc HTTP/1.1\r\nhost: localhost\r\n\r\n".into(), false, "/nc", None),
+            ("GET /nc HTTP/1.1\r\nhost: localhost\r\n\r\n".into(), false, "/nc", None),
+            ("GET /nr HTTP/1.1\r\nhost: localhost\r\n\r\n".into(), false, "/nr", None),
+            ("GET /nr HTTP/1.1\r\nhost: localhost\r\n\r\n".into(), false, "/nr", None),
+            ("GET /nr HTTP/1.1\r\nhost: localhost\r\n\r\n".into(), false, "/nr", None),
         ];
+        let mut nonces_seen: std::collections::HashMap<&str, Vec<String>> = Default::default();
         let mut model_lines = Vec::new();
         let mut observed = Vec::new();
         let mut problems = Vec::new();
@@ -467,7 +479,7 @@ impl Group for Chain {
             let mut last: Vec<&(String, String, String)> = Vec::new();
             for r in &rules { last.retain(|x| x.0 != r.0); last.push(r); }
             let best = last.iter().find(|x| !x.0.ends_with('*') && x.0 == *path).or_else(|| last.iter().filter(|x| x.0.ends_with('*') && path.starts_with(&x.0[..x.0.len() - 1])).max_by_key(|x| x.0.len()));
-            let is_nonce_page = *path == "/n" && r.status == 200;
+            let is_nonce_page = matches!(*path, "/n" | "/nc" | "/nr") && r.status == 200;
             let mut csp_seen = r.header("content-security-policy").map(|v| v.to_vec());
             let mut nonce_in = "none".to_owned();
             if is_nonce_page {
@@ -476,6 +488,10 @@ impl Group for Chain {
                 let Some(start) = body.find("nonce=\"").map(|i| i + 7) else { problems.push("nonce page without nonce attribute".into()); continue };
                 let n = &body[start..start + 24.min(body.len() - start)];
                 if body.matches(&format!("nonce=\"{n}\"")).count() != 2 { problems.push(format!("nonce attributes differ: {body}")); }
+                // the value differs between responses and is never served from cache
+                let seen = nonces_seen.entry(*path).or_default();
+                if seen.iter().any(|x| x == n) { problems.push(format!("{path}: the nonce {n} was served twice (a nonce page came from the cache)")); }
+                seen.push(n.to_owned());
                 if let Some(c) = &csp_seen {
                     if best.is_some() && String::from_utf8_lossy(c).matches(&format!("'nonce-{n}'")).count() != 4 { problems.push(format!("CSP does not carry the body nonce 4 times: {}", String::from_utf8_lossy(c))); }
                     csp_seen = Some(replace_all(c, n.as_bytes(), PLACEHOLDER));
